@@ -245,6 +245,17 @@ func init() {
 		return true
 	})
 
+	reg("net/url.Parse", "err == nil iff urlParses(s); then the result is non-nil, else nil", func(c *callCtx) bool {
+		x := c.x
+		x.vc.declFun("uf_url_parses", []string{SStr}, SBool)
+		ok := app("uf_url_parses", c.args[0].S)
+		r := x.allocRef(c.n, c.st, "url")
+		e := x.fresh("urlparse_err", c.resTypes[1])
+		c.n.assume(mkEq(app("=", app("i.tag", e.S), "0"), ok))
+		c.res = []Term{{S: mkIte(ok, r, "0"), Sort: SInt, T: c.resTypes[0]}, e}
+		return true
+	})
+
 	// --- logging: no effect on program state
 	for _, n := range []string{"log/slog.Debug", "log/slog.Info", "log/slog.Warn", "log/slog.Error", "(*log/slog.Logger).Debug", "(*log/slog.Logger).Info", "(*log/slog.Logger).Warn", "(*log/slog.Logger).Error",
 		"(*log/slog.Logger).Log", "log/slog.Log", "(*log/slog.Logger).Enabled", "log/slog.Default"} {
